@@ -99,8 +99,95 @@ def search():
     return None
 
 
+def search2():
+    """two union-typed parameters under and / or with a nested condition (the union of the per-member-pair results),
+    and the UNKNOWN argument kind (docs: parameter with a default under *args / **kwargs of unknown size)"""
+    from replay.checkcode import check_code
+    A, B = ("oftype", "a", "int"), ("oftype", "b", "str")
+    bods = [("if", ("and", A, B), ("ret", "str"), ("if", A, ("ret", "bytes"), ("ret", "int"))),
+            ("if", ("or", A, B), ("if", A, ("ret", "bytes"), ("ret", "int")), ("ret", "str")),
+            ("if", ("and", A, B), ("ret", "str"), ("if", B, ("ret", "bytes"), ("ret", "int"))),
+            ("if", ("or", ("not", A), B), ("if", B, ("ret", "float"), ("ret", "int")), ("ret", "str"))]
+
+    def val(c, env):
+        k = c[0]
+        if k == "oftype":
+            return env[c[1]] == c[2]
+        if k == "not":
+            return not val(c[1], env)
+        x, y = val(c[1], env), val(c[2], env)
+        return (x and y) if k == "and" else (x or y)
+
+    def ref(b, env):
+        if b[0] == "ret":
+            return {b[1]}
+        return ref(b[2] if val(b[1], env) else b[3], env)
+    args = {"1": ["int"], "'s'": ["str"], "u": ["int", "str"]}
+    for b in bods:
+        lines = ["from typing import Union", "from pyanalyze.extensions import evaluated, is_of_type", "@evaluated",
+                 "def ev(a: Union[int, str], b: Union[int, str]):", body_src(b, 1).rstrip("\n"),
+                 "def ev(a: object, b: object) -> object:", "    return a", "def use(u: Union[int, str], v: Union[int, str]) -> None:"]
+        first = len("\n".join(lines).split("\n")) + 1
+        calls = [(x, y) for x in args for y in args]
+        for x, y in calls:
+            lines.append(f"    reveal_type(ev({x}, {'v' if y == 'u' else y}))")
+        res = check_code("\n".join(lines) + "\n")
+        revealed = {f["lineno"]: re.search(r"'(.*)'", f["description"]).group(1) for f in res if f["code"].name == "reveal_type"}
+        for ci, (x, y) in enumerate(calls):
+            want = set()
+            for xt in args[x]:
+                for yt in args[y]:
+                    want |= ref(b, {"a": xt, "b": yt})
+            got = set(revealed.get(first + ci, "").replace(" ", "").split("|"))
+            if got != want:
+                return f"evaluator body\n{body_src(b, 1)}call ev({x}, {y}): revealed {revealed.get(first + ci)!r}, the union of the per-member results is {' | '.join(sorted(want))}"
+    # UNKNOWN kinds
+    code = """from typing import Any, Dict, List
+from pyanalyze.extensions import evaluated, is_provided, is_keyword, is_positional
+@evaluated
+def kwonly(x: int, *, k: int = 0):
+    if is_provided(k):
+        return int
+    else:
+        return str
+def kwonly(x: int, *, k: int = 0) -> object:
+    return x
+@evaluated
+def kwonly2(x: int, *, k: int = 0):
+    if is_keyword(k):
+        return int
+    else:
+        return str
+def kwonly2(x: int, *, k: int = 0) -> object:
+    return x
+@evaluated
+def pos(x: int, y: int = 0, /):
+    if is_provided(y):
+        return int
+    else:
+        return str
+def pos(x: int, y: int = 0, /) -> object:
+    return x
+def use(kw: Dict[str, int], ar: List[int]) -> None:
+    reveal_type(kwonly(1, **kw))
+    reveal_type(kwonly(1, k=1))
+    reveal_type(kwonly(1))
+    reveal_type(kwonly2(1, **kw))
+    reveal_type(kwonly2(1, k=2))
+    reveal_type(pos(1, *ar))
+    reveal_type(pos(1, 2))
+    reveal_type(pos(1))
+"""
+    res = check_code(code)
+    revealed = [re.search(r"'(.*)'", f["description"]).group(1) for f in sorted(res, key=lambda f: f["lineno"]) if f["code"].name == "reveal_type"]
+    want = ["str", "int", "str", "str", "int", "str", "int", "str"]
+    if revealed != want:
+        return f"argument kinds (UNKNOWN under **kwargs / *args of unknown size must read as not provided): revealed {revealed}, the specification gives {want}"
+    return None
+
+
 def r_c20(rec):
-    msg = search()
+    msg = search() or search2()
     if msg:
         return True, msg
     return False, "evaluated functions follow the reference denotation on the generated bodies and calls"
@@ -112,4 +199,4 @@ REPLAYERS = {k: r_c20 for k in KERNELS}
 REPLAYERS["C20.bounded"] = r_c20
 
 if __name__ == "__main__":
-    print(search())
+    print(search()); print(search2())
